@@ -315,8 +315,9 @@ NPos(r, d) ==
                 "privesc_cost_nonpositive", "privesc_bad_access"} -> NP(d)
       [] r = "scan_cost_negative" -> 4
       [] r \in {"host_missing", "host_unknown_service", "host_duplicate_service", "host_unknown_process",
-                "host_duplicate_process", "host_unknown_os", "host_firewall_not_map",
+                "host_duplicate_process", "host_firewall_not_map",
                 "host_firewall_unknown_service"} -> NHC(d)
+      [] r = "host_unknown_os" -> 2 * NHC(d)             \* an undeclared name / no OS at all (null)
       [] r \in {"host_value_nonnumeric", "host_firewall_bad_address"} -> 4 * NHC(d)
       [] r = "host_superfluous" -> 1
       [] r = "host_value_contradicts_sensitive" -> 3 * Cardinality(SensHostIdx(d))
@@ -340,8 +341,9 @@ BreakAct(d, sec, what, r, p) ==
 
 BreakHost(d, r, p0) ==
     LET m == Get(d, "host_configurations")
-        p == IF r \in {"host_value_nonnumeric", "host_firewall_bad_address"} THEN ((p0 - 1) \div 4) + 1 ELSE p0
-        variant == (p0 - 1) % 4
+        p == IF r \in {"host_value_nonnumeric", "host_firewall_bad_address"} THEN ((p0 - 1) \div 4) + 1
+             ELSE IF r = "host_unknown_os" THEN ((p0 - 1) \div 2) + 1 ELSE p0
+        variant == IF r = "host_unknown_os" THEN (p0 - 1) % 2 ELSE (p0 - 1) % 4
         c == m.v[p]
         srv == Get(c, "services")
         prc == Get(c, "processes")
@@ -351,7 +353,7 @@ BreakHost(d, r, p0) ==
                 [] r = "host_unknown_process" -> SetKey(c, "processes", List(Append(prc.v, StrN("zz_unknown"))))
                 [] r = "host_duplicate_process" ->
                      SetKey(c, "processes", List(<<StrN(ProcD(d)[1]), StrN(ProcD(d)[1])>>))
-                [] r = "host_unknown_os" -> SetKey(c, "os", StrN("zz_unknown_os"))
+                [] r = "host_unknown_os" -> SetKey(c, "os", IF variant = 0 THEN StrN("zz_unknown_os") ELSE Null)
                 [] r = "host_firewall_not_map" -> SetKey(c, "firewall", List(<<StrN(SrvD(d)[1])>>))
                 [] r = "host_firewall_bad_address" ->
                      \* subnet too large / negative subnet (Python would wrap it) / the internet / host too large
